@@ -184,18 +184,6 @@ macro_rules! gen_harness {
     };
 }
 
-// probe: the same query with `Board::piece_at` and `Board::colored_attacks` replaced by their loop-free
-// stand-ins (ladder step 1, DESIGN §4.1)
-proof_geo! {
-    #[cfg_attr(kani, kani::stub(std::vec::Vec::push, crate::stubs::push_noalloc))]
-    #[cfg_attr(kani, kani::stub(weechess_core::Board::piece_at, crate::stubs::piece_at))]
-    #[cfg_attr(kani, kani::stub(weechess_core::Board::colored_attacks, crate::stubs::colored_attacks))]
-    fn probe_gen_kp_kp_ep_black_complete_fast() {
-        let (p, len) = generator::<12, 1>(false, &[(1, 1), (0, 1)], false, true, "c01 probe fast");
-        let _ = (&p, len);
-    }
-}
-
 type Cv = fn(&Pos, usize) -> bool;
 
 // bare kings
@@ -257,6 +245,29 @@ pawn_q_harness!(gen_q_kp_kp_ep_white_complete, 1, true, &[(0, 1), (1, 1)], true,
 pawn_q_harness!(gen_q_kp_kp_ep_black_sound, 0, false, &[(1, 1), (0, 1)], true, 12);
 pawn_q_harness!(gen_q_kp_kp_ep_black_complete, 1, false, &[(1, 1), (0, 1)], true, 12);
 
+// own minor pieces and queen with the kings concrete (knight jumps, bishop and queen rays with a blocker / capture)
+macro_rules! piece_q_harness {
+    ($name:ident, $mode:expr, $wtm:expr, $men:expr, $max:expr, $full:expr) => {
+        proof_geo! {
+            #[cfg_attr(kani, kani::stub(std::vec::Vec::push, crate::stubs::push_noalloc))]
+            fn $name() {
+                let p = family_kings_at($wtm, 6, 62, $men, false, concat!("c01 ", stringify!($name)));
+                let (_p, len) = generator_on::<$max, $mode>(p, concat!("c01 ", stringify!($name)));
+                kani::cover!(len >= $full, "the pieces have (nearly) all their moves");
+                kani::cover!(len < $full, "some moves are blocked or off the board");
+            }
+        }
+    };
+}
+
+piece_q_harness!(gen_q_kn_kp_white_sound, 0, true, &[(0, 2), (1, 1)], 16, 12);
+piece_q_harness!(gen_q_kn_kp_white_complete, 1, true, &[(0, 2), (1, 1)], 16, 12);
+piece_q_harness!(gen_q_kn_kp_black_complete, 1, false, &[(1, 2), (0, 1)], 16, 12);
+piece_q_harness!(gen_q_kb_kp_white_complete, 1, true, &[(0, 3), (1, 1)], 21, 16);
+piece_q_harness!(gen_q_kb_kp_black_sound, 0, false, &[(1, 3), (0, 1)], 21, 16);
+piece_q_harness!(gen_q_kq_kp_white_complete, 1, true, &[(0, 5), (1, 1)], 35, 28);
+piece_q_harness!(gen_q_kq_kp_black_sound, 0, false, &[(1, 5), (0, 1)], 35, 28);
+
 // added after the third round of seeded changes (two capture-promotions in one direction; an en-passant
 // capture next to an ordinary capture on the other side): kings concrete, more pawns and targets
 pawn_q_harness!(gen_q_kpp_knn_white_sound, 0, true, &[(0, 1), (0, 1), (1, 2), (1, 2)], false, 32);
@@ -272,13 +283,13 @@ pawn_q_harness!(gen_q_kpp_kp_ep_black_complete, 1, false, &[(1, 1), (1, 1), (0, 
 // symbolic squares (attacks on e/f/g, e/d/c, b1/b8; blockers on the path)
 macro_rules! castle_harness {
     ($name:ident, $mode:expr, $wtm:expr) => {
-        castle_harness!($name, $mode, $wtm, 4);
+        castle_harness!($name, $mode, $wtm, &[4]);
     };
     ($name:ident, $mode:expr, $wtm:expr, $opp:expr) => {
         proof_geo! {
             #[cfg_attr(kani, kani::stub(std::vec::Vec::push, crate::stubs::push_noalloc))]
             fn $name() {
-                let p = castle_family($wtm, &[$opp], concat!("c01 ", stringify!($name)));
+                let p = castle_family($wtm, $opp, concat!("c01 ", stringify!($name)));
                 let (p, _len) = generator_on::<40, $mode>(p, concat!("c01 ", stringify!($name)));
                 let (qs, ks, home, b_sq): (usize, usize, u8, u8) = if $wtm { (1, 0, 4, 1) } else { (3, 2, 60, 57) };
                 kani::cover!(p.rights[qs] && gen_pseudo(&p, Mv { from: home, to: home - 2, promo: 0 }) && attacked_ref(&p.bb, p.them(), b_sq), "queen-side castling allowed while the b-file square is attacked");
@@ -294,10 +305,13 @@ castle_harness!(gen_castle_white_complete, 1, true);
 castle_harness!(gen_castle_black_sound, 0, false);
 castle_harness!(gen_castle_black_complete, 1, false);
 // ... and with an opposing knight instead of the rook (it can sit on the path without attacking it)
-castle_harness!(gen_castle_n_white_sound, 0, true, 2);
-castle_harness!(gen_castle_n_white_complete, 1, true, 2);
-castle_harness!(gen_castle_n_black_sound, 0, false, 2);
-castle_harness!(gen_castle_n_black_complete, 1, false, 2);
+castle_harness!(gen_castle_n_white_sound, 0, true, &[2]);
+castle_harness!(gen_castle_n_white_complete, 1, true, &[2]);
+castle_harness!(gen_castle_n_black_sound, 0, false, &[2]);
+castle_harness!(gen_castle_n_black_complete, 1, false, &[2]);
+// ... and with both (attacks on the path and a man standing on it in one query)
+castle_harness!(gen_castle_rn_white_sound, 0, true, &[4, 2]);
+castle_harness!(gen_castle_rn_black_sound, 0, false, &[4, 2]);
 
 proof_geo! {
     #[cfg_attr(kani, kani::stub(std::vec::Vec::push, crate::stubs::push_noalloc))]
